@@ -870,7 +870,8 @@ class Worker:
         slot.gate0 = {"dq": _names(out["gate"]["dq"]), "tz": out["gate"]["tz"]}
         pf, nums = self._poor_fit(fam, model)
         out["poor_fit"], out["fit_numbers"] = pf, nums
-        if (facts.get("reused") or a.get("vs_fresh")) and fam != "caltrack" and self.pristine is not None and mode == "json":
+        if (facts.get("reused") or a.get("vs_fresh") or ds.n_uses > 1) and fam != "caltrack" and self.pristine is not None \
+                and mode == "json":
             # the same key by a fresh object in a process that has seen nothing of this run: same document, same gate state
             pcls, pp = self.pristine.fit(fam, profile, ds.recipe, ignore)
             if pcls != "reference-unavailable":
